@@ -638,7 +638,7 @@ def rerun_hang(g, cmd, stats, what="hang"):
     steps = parse_output(so).get(g.cid, [])
     if what == "crash":
         return any(t.exc and t.exc[0].startswith("crash") and t.cmd.split()[:2] == cmd.split()[:2] for t in steps)
-    return any(t.exc and t.exc[0] == "hang" for t in steps)
+    return any(t.exc and t.exc[0] == "hang" and t.cmd.split()[:2] == cmd.split()[:2] for t in steps)    # the SAME call must fail to return
 
 
 def evaluate(res, gens, cases, model, stats, fam_of):
